@@ -6,12 +6,15 @@ PROP = "C03"
 
 
 def work(spec):
-    return e1.work_equiv(spec, total=True)
+    # every F-occ member is a legal specification; the random combinations are not guaranteed to be
+    return e1.work_equiv(spec, total=(spec.get("tags") or {}).get("family") != "rand")
 
 
 def run(tier, seed):
-    specs = specgen.f_occ(tier, seed)
+    specs = specgen.f_occ(tier, seed) + specgen.f_rand(tier, seed)
     return run_e1(PROP, tier, seed, specs, work,
+                  "F-rand: seeded random combinations (VERIF_SEED) of shape/occupancy/flatten directives on several ranks, named, literal and "
+                  "solver-symbolic sizes, rank orders, level-ordered loop orders, products / sums / two-Einsum cascades; "
                   "F-occ: product templates x leader in tensors holding the rank x sizes {1,2,3} (literal and named) x "
                   "stacks (one/two occupancy levels, occupancy beneath a shape split, two ranks) x flatten() of two ranks "
                   "(static, sigma-style, dynamic) x occupancy of the flattened rank x loop orders keeping levels outermost-to-innermost",
